@@ -192,13 +192,13 @@ let hc_dump (h : hc) =
   let ad = match q.fq_ack_data with Some d -> sn d.ad_last_send ^ ":" ^ sn d.ad_total ^ ":" ^ b01 d.ad_rate_limited | None -> "-" in
   let li = String.concat "," (List.map (fun e -> sn e.li_end ^ "/" ^ sn e.li_len) q.fq_li) in
   let rb = q.fq_rb in
-  Printf.sprintf "now=%s rtt=%s rto=%s credit=%s fid=%s sr=%s stb=%s pq=%d rq=%d | snd q=%d base=%s next=%s alloc=%s total=%s | fq wbase=%s next=%s lbase=%s llen=%d rl=%s lf=%s ad=%s rb=%s:%s:%s:%s li=[%s] | rcv base=%s end=%s alloc=%s crf=%s wrf=%s | faq base=%s len=%d | src %s"
+  Printf.sprintf "now=%s rtt=%s rto=%s credit=%s fid=%s sr=%s stb=%s pq=%d rq=%d | snd q=%d base=%s next=%s alloc=%s total=%s | fq wbase=%s next=%s lbase=%s llen=%d rl=%s lf=%s ad=%s rb=%s:%s:%s:%s li=[%s] | rcv base=%s end=%s alloc=%s crf=%s wrf=%s held=%s | faq base=%s len=%d | src %s"
     (sn h.h_now) (sn h.h_rtt) (sn h.h_rto) (z_to_string h.h_credit) (sn h.h_flush_id) (b01 h.h_sync_reply) (sn h.h_sync_base)
     (List.length h.h_pq) (List.length h.h_rq)
     (List.length s.s_queue) (sn s.s_base) (sn s.s_next) (sn s.s_alloc) (sn s.s_total)
     (sn q.fq_wbase) (sn q.fq_next) (sn q.fq_lbase) (List.length q.fq_frames) (b01 q.fq_rate_limited) (optn q.fq_last_feedback) ad
     (sn rb.rb_base) (sn rb.rb_count) (sn rb.rb_f0) (sn rb.rb_f1) li
-    (sn r.r_base) (sn r.r_end) (sn r.r_alloc) (hex_of_n r.r_crf) (b01 r.r_wrf)
+    (sn r.r_base) (sn r.r_end) (sn r.r_alloc) (hex_of_n r.r_crf) (b01 r.r_wrf) (sn (receiver_held r))
     (sn fa.fa_base) (List.length fa.fa_entries)
     (src_dump h.h_src)
 
@@ -250,7 +250,7 @@ let hc_op toks =
       eps.(int_of_string e) <- Some { h = hc_new cfg !nonce_seed; outbox = Array.make 64 []; nout = 0; cursor = 0; poisoned = false };
       Printf.printf "new %s\n" e
   | op :: rest ->
-      let e = int_of_string (if op = "deliver" then List.nth rest 2 else if op = "relay" then List.nth rest 1 else List.hd rest) in
+      let e = int_of_string (if op = "deliver" || op = "replayack" then List.nth rest 2 else if op = "relay" then List.nth rest 1 else List.hd rest) in
       (match eps.(e) with
        | None -> print_string "skipped\n"
        | Some ep when ep.poisoned -> print_string "skipped\n"
@@ -289,16 +289,24 @@ let hc_op toks =
                 let (h', pkts) = hc_receive ep.h in
                 List.iter (fun p -> Printf.printf "pkt %d %s\n" (List.length p) (sn (crc_compute p))) pkts;
                 finish (Ok h')
-            | "deliver", [src; k; _] ->
-                (match eps.(int_of_string src) with
-                 | Some s when s.nout > 0 ->
-                     let bytes = s.outbox.(int_of_string k mod s.nout) in
+            | ("deliver" | "replayack"), [src; k; _] ->
+                let pick = match eps.(int_of_string src) with
+                  | Some s when s.nout > 0 ->
+                      if op = "deliver" then Some (s.outbox.(int_of_string k mod s.nout))
+                      else begin
+                        let acks = List.filter (fun f -> match f with b :: _ -> int_of_n b = 12 | [] -> false)
+                                     (Array.to_list (Array.sub s.outbox 0 s.nout)) in
+                        if acks = [] then None else Some (List.nth acks (int_of_string k mod List.length acks))
+                      end
+                  | _ -> None in
+                (match pick with
+                 | Some bytes ->
                      (match read_frame bytes with
                       | Ok None -> print_string "deliver: unreadable\n"; finish (Ok ep.h)
                       | Ok (Some f) -> let (k, r) = handle f in
                           (match r with Ok _ -> Printf.printf "deliver: %s\n" k | _ -> ()); finish r
                       | Panic s -> finish (Panic s) | Hang s -> finish (Hang s))
-                 | _ -> print_string "deliver: nothing\n"; finish (Ok ep.h))
+                 | None -> print_string "deliver: nothing\n"; finish (Ok ep.h))
             | "relay", [src; _; drop; dup; swap; seed] ->
                 let frames = match eps.(int_of_string src) with
                   | Some sp ->
